@@ -47,12 +47,12 @@ class C03(Cfg):
 
     def streams(self, tier, seed, work, dv):
         res = []
-        n, ln = (22, 18) if tier == "quick" else (300, 26)
+        n, ln = (22, 18) if tier == "quick" else (1200, 26)
         path = os.path.join(work, "hist_C03.ops")
         lib.sh([dv, "gen", "--prop", "C03", "--seed", str(seed), "--n", str(n), "--len", str(ln), "--out", path], check=True)
         res.append(("histories C03 seed=%d n=%d" % (seed, n), path, False))
         # every arrival order: all sequences of k directed pulls among three peers after the same concurrent writes
-        bases, k = (1, 2) if tier == "quick" else (1, 3)
+        bases, k = (1, 2) if tier == "quick" else (3, 3)
         path = os.path.join(work, "orders_C03.ops")
         lib.sh([dv, "gen", "--prop", "orders", "--seed", str(seed), "--n", str(bases), "--len", str(k), "--out", path], check=True)
         res.append(("all pull orders len=%d bases=%d seed=%d" % (k, bases, seed), path, True))
